@@ -466,6 +466,14 @@ def gen_fetcher_case(rng):
         for _ in range(rng.randint(1, 2)):
             if len(fb) > 1:
                 del fb[rng.randrange(0, len(fb))]
+    elif r < 0.62:        # the primary skips k >= 1 timestamps (mostly while in fallback mode); fallback gap-free
+        kind = "prim_gaps"
+        first_bad = next((k for k, it in enumerate(prim) if isinstance(it[1], str)), None)
+        for _ in range(rng.randint(1, 2)):
+            if len(prim) > 2:
+                lo = first_bad + 1 if first_bad is not None and first_bad + 1 < len(prim) and rng.random() < 0.8 else 0
+                j = rng.randrange(lo, len(prim))
+                del prim[j: j + rng.randint(1, 3)]
     case = {"kind": kind, "d": d,
             "prim": {"items": prim, "closed": rng.random() < 0.45},
             "fb": {"items": fb, "closed": rng.random() < 0.25},
